@@ -12,11 +12,20 @@ LEVEL = 'proof'
 DRIVER = 'drv_c10'
 HARNESS = 'c10.cpp'
 SOURCES = ['src/transform/SmartRotation3D.cpp']
-PROOF_MODULES = ['RomeaProofs.Properties.C10']
+PROOF_MODULES = ['RomeaProofs.Properties.C10', 'RomeaProofs.Bridge.C10', 'RomeaProofs.Bridge.C10Cor']
 TRUSTED = ['harness/c10.cpp calls the library functions and prints their results as bit patterns; it also checks the normalisers\' '
            'assert precondition itself (the library is built with NDEBUG) and prints `precond`',
-           'the model\'s fmod (repeated exact subtraction) is compared with libm\'s std::fmod(v, 2*pi) on every run (op ang.fmod)']
-ASSUMPTIONS = ['theorems are over the reals (libm functions = the mathematical functions, atan2 = Complex.arg, no rounding, no overflow); '
+           'the model\'s fmod (repeated exact subtraction) is compared with libm\'s std::fmod(v, 2*pi) on every run (op ang.fmod)',
+           'tools/cxx2lean.py (Python over clang-14\'s JSON AST) translates between0And2Pi / betweenMinusPiAndPi / rotation2DToEulerAngle / '
+           'rotation3DToEulerAngles (float and double instantiations), toPolar / toSpherical / toCartesian (both, float and double) and the '
+           'R_ part of SmartRotation3D::init from the working tree into RomeaModel/Generated/SrcC10.lean on every run; '
+           'RomeaProofs/Bridge/C10*.lean prove them equal to the hand-written model for every scalar type. Trusted inside the translator: '
+           'std::fmod is mapped to the model\'s fmod (not translated), Eigen\'s Vector::norm() is read as sqrt of the left-to-right sum of '
+           'squares and the fixed-size 3x3 product as (a0*b0 + a1*b1) + a2*b2 per coefficient (the bit-exact differential check confirms both)']
+ASSUMPTIONS = ['bridge (tie no. 2): translation of the -DNDEBUG build (the normalisers\' asserts are compiled out); quaternion-based functions '
+               '(eulerAnglesToQuaternion, quaternionToEulerAngles, eulerAngleToRotation2D\'s comma initialiser, rigid_transformation3) and the '
+               'homogeneous-coordinate overloads are Eigen expression templates and are NOT translated: they stay tied by the differential check only',
+               'theorems are over the reals (libm functions = the mathematical functions, atan2 = Complex.arg, no rounding, no overflow); '
                'every guard of a partial operation (asin/acos argument in [-1,1], non-zero divisor, sqrt of a non-negative) is a proved conjunct '
                'or hypothesis-discharged side lemma of the theorem that crosses it',
                'floating point (float and double instantiations, the value a normaliser returns when value + 2*pi rounds to 2*pi) is covered '
@@ -683,3 +692,59 @@ def oracle(case, out, stats):
 def focused_cases(rng, disagreeing, tier):
     """re-run the generator densely (the disagreeing inputs come from the same streams)"""
     return gen_cases(rng, 'quick')
+
+
+# ------------------------------------------------------------------ stage G: the anchored functions themselves, translated (DESIGN.md 2.5b)
+_INST = """namespace romea { namespace core {
+template float between0And2Pi<float>(float);
+template double between0And2Pi<double>(double);
+template float betweenMinusPiAndPi<float>(float);
+template double betweenMinusPiAndPi<double>(double);
+template double rotation2DToEulerAngle<double>(const Eigen::Matrix<double, 2, 2> &);
+template float rotation2DToEulerAngle<float>(const Eigen::Matrix<float, 2, 2> &);
+template Eigen::Matrix<double, 3, 1> rotation3DToEulerAngles<double>(const Eigen::Matrix<double, 3, 3> &);
+template Eigen::Matrix<float, 3, 1> rotation3DToEulerAngles<float>(const Eigen::Matrix<float, 3, 3> &);
+template PolarCoordinates<double> toPolar<double>(const CartesianCoordinates2<double> &);
+template CartesianCoordinates2<double> toCartesian<double>(const PolarCoordinates<double> &);
+template SphericalCoordinates<double> toSpherical<double>(const CartesianCoordinates3<double> &);
+template CartesianCoordinates3<double> toCartesian<double>(const SphericalCoordinates<double> &);
+template PolarCoordinates<float> toPolar<float>(const CartesianCoordinates2<float> &);
+template CartesianCoordinates2<float> toCartesian<float>(const PolarCoordinates<float> &);
+template SphericalCoordinates<float> toSpherical<float>(const CartesianCoordinates3<float> &);
+template CartesianCoordinates3<float> toCartesian<float>(const SphericalCoordinates<float> &);
+}}"""
+BRIDGE_SPEC = {
+    'id': 'C10',
+    'headers': ['romea_core_common/math/EulerAngles.hpp', 'romea_core_common/coordinates/PolarCoordinates.hpp',
+                'romea_core_common/coordinates/SphericalCoordinates.hpp'],
+    'sources': ['src/transform/SmartRotation3D.cpp'],
+    'extra': _INST.split('\n'),
+    'imports': ['RomeaModel.Rotation'],
+    'opens': ['Romea.Rotation'],
+    # std::fmod is not in Lean's core: the model's exact-subtraction fmod (compared with libm's on every run, op ang.fmod)
+    'externs': {'fmod': {'lean': 'Romea.Rotation.fmod', 'classes': ['Sub', 'Neg', 'LT', 'DecidableLT', 'NatCast']}},
+    'functions': [
+        {'cxx': 'between0And2Pi', 'targs': 'float', 'suffix': '_f32'},
+        {'cxx': 'between0And2Pi', 'targs': 'double'},
+        {'cxx': 'betweenMinusPiAndPi', 'targs': 'float', 'suffix': '_f32'},
+        {'cxx': 'betweenMinusPiAndPi', 'targs': 'double'},
+        {'cxx': 'rotation2DToEulerAngle', 'targs': 'float', 'suffix': '_f32'},
+        {'cxx': 'rotation2DToEulerAngle', 'targs': 'double'},
+        {'cxx': 'rotation3DToEulerAngles', 'targs': 'float', 'suffix': '_f32'},
+        {'cxx': 'rotation3DToEulerAngles', 'targs': 'double'},
+        {'cxx': 'SmartRotation3D::init', 'sig': '(const double &, const double &, const double &)', 'outputs': ['R_'], 'suffix': '_R'},
+        {'cxx': 'toPolar', 'targs': 'double'},
+        {'cxx': 'toCartesian', 'targs': 'double', 'sig': 'PolarCoordinates'},
+        {'cxx': 'toSpherical', 'targs': 'double', 'sig': 'CartesianCoordinates3'},
+        {'cxx': 'toCartesian', 'targs': 'double', 'sig': 'SphericalCoordinates', 'suffix': '_spherical'},
+        {'cxx': 'toPolar', 'targs': 'float', 'suffix': '_f32'},
+        {'cxx': 'toCartesian', 'targs': 'float', 'sig': 'PolarCoordinates', 'suffix': '_f32'},
+        {'cxx': 'toSpherical', 'targs': 'float', 'sig': 'CartesianCoordinates3', 'suffix': '_f32'},
+        {'cxx': 'toCartesian', 'targs': 'float', 'sig': 'SphericalCoordinates', 'suffix': '_spherical_f32'},
+    ],
+}
+
+
+def regen(ctx):
+    import bridge
+    return bridge.regen_bridge(ctx, BRIDGE_SPEC)
